@@ -353,6 +353,11 @@ def finish(prop, rep):
     replay_paths = []
     seen = set()
     for case, dev in sorted(rep.violations, key=lambda cd: len(canon(cd[0])))[:5]:
+        if hasattr(prop, "export_case"):
+            try:
+                case = prop.export_case(case)  # self-contained form (e.g. C14: operations travel with their file contents)
+            except Exception:  # noqa: BLE001
+                rep.errors.append(traceback.format_exc()[-2000:])
         h = hexdigest(case)
         if h in seen:
             continue
